@@ -92,12 +92,12 @@ Inductive sop :=
 Definition c_run (sorted : bool) := @run cmsg part_chunk c_time c_index sorted.
 Definition c_step (sorted : bool) := @step cmsg part_chunk c_time c_index sorted.
 
-(* what was delivered under [id] in a list of events: message indices, text positions, number of end markers *)
-Fixpoint delivered (id : N) (evs : list (event cmsg)) : list N * list N * N :=
+(* what was delivered_obs under [id] in a list of events: message indices, text positions, number of end markers *)
+Fixpoint delivered_obs (id : N) (evs : list (event cmsg)) : list N * list N * N :=
   match evs with
   | [] => ([], [], 0)
   | e :: r =>
-    let '(ix, ps, d) := delivered id r in
+    let '(ix, ps, d) := delivered_obs id r in
     match e with
     | EFrame (FMsgs i ms) => if i =? id then (map c_index ms ++ ix, ps, d) else (ix, ps, d)
     | EFrame (FText i p m) => if i =? id then (c_index m :: ix, p :: ps, d) else (ix, ps, d)
@@ -106,7 +106,7 @@ Fixpoint delivered (id : N) (evs : list (event cmsg)) : list N * list N * N :=
     end
   end.
 Definition o_delivered (id : N) (evs : list (event cmsg)) : otree :=
-  let '(ix, ps, d) := delivered id evs in T [T (map L ix); T (map L ps); L d].
+  let '(ix, ps, d) := delivered_obs id evs in T [T (map L ix); T (map L ps); L d].
 
 Record sess := {
   ss_sv : server cmsg;
@@ -237,7 +237,7 @@ Fixpoint sess_run (sorted : bool) (file : list cmsg) (st : sess) (ops : list sop
 (* totals at the end of the session for every id whose announcing op was settled *)
 Definition o_totals (st : sess) : otree :=
   T (map (fun c : N * bool =>
-            if snd c then let '(ix, _, d) := delivered (fst c) (ss_trace st) in T [L (len ix); L d] else T [])
+            if snd c then let '(ix, _, d) := delivered_obs (fst c) (ss_trace st) in T [L (len ix); L d] else T [])
          (ss_created st)).
 
 Definition run_sess (sorted preload : bool) (file : list cmsg) (ops : list sop) : otree :=
